@@ -33,6 +33,10 @@ class ApportionStub:
     def compute(self, method, props, n, *a, **k):
         ctx = self.ctx
         props = list(props)
+        fixed = ctx.params.get("apportion_fixed")
+        if fixed is not None:
+            ctx.notes["apportion_calls"].append({"method": method, "props": props, "n": n, "result": list(fixed)})
+            return list(fixed)
         live = [i for i, p in enumerate(props) if ctx.truth(gt(ex(p), 0))]
         if not live:
             raise ZeroDivisionError("no party with votes")
